@@ -113,7 +113,7 @@ CLAIMS["C08"] = ("Deductive proof (Verus) on the real PruneList code of the repr
     "Verus contracts + representation invariant on extracted real functions", "6 C08")
 CLAIMS["C16"] = ("Arithmetic, proof-level (Verus, unbounded): on the real SegmentIdentifier code, for every identifier with height <= 62 and idx*2^height < 2^62 and every mmr_size: the first position is the "
     "position of leaf idx*2^height, a full segment is exactly one complete subtree (last = first + 2^(height+1) - 2, and that position has height `height` in the explicit tree), a partial last segment ends "
-    "at mmr_size - 1; capacity/offset/unpruned size as specified; Desegmenter::calc_bitmap_mmr_sizes (verbatim) never panics and yields leaf count == ceil(output leaves / 1024) and bitmap MMR size == the size of an MMR with that many leaves (found violated on the pinned tree -- a panic for at most 1024 outputs -- and repaired: finding F10). Uses the C07 contracts modularly (included and re-verified). Segment::first_unpruned_parent (verbatim loop): returns the segment root at last+1, or climbs the family branch to the FIRST position whose hash the segment carries, stepping up ONLY IF the bitmap has no set bit in exactly the parent's leaf-index range clamped to the MMR (a narrower or shifted range fails the invariant); Segment::root is abstract there. Segment::root (real control flow; iterator adaptors replaced by a verified cursor stand-in, the 'required leaf' closure verified verbatim): never panics or underflows on any received segment, returns Ok ONLY IF every leaf position of the segment range that is required -- no bitmap, or the bitmap has the leaf's or its sibling's index, or it is the MMR's last position -- has an entry in the segment (so omitting a leaf the bitmap marks unspent makes validation fail), and returns Ok(None) only for a prunable MMR; that the hash it returns is the Merkle root is not decided by proof. Tamper-resistance of Segment::validate is covered only by the bounded "
+    "at mmr_size - 1; capacity/offset/unpruned size as specified; Desegmenter::calc_bitmap_mmr_sizes (verbatim) never panics and yields leaf count == ceil(output leaves / 1024) and bitmap MMR size == the size of an MMR with that many leaves (found violated on the pinned tree -- a panic for at most 1024 outputs -- and repaired: finding F10). Uses the C07 contracts modularly (included and re-verified). Segment::first_unpruned_parent (verbatim loop): returns the segment root at last+1, or climbs the family branch to the FIRST position whose hash the segment carries, stepping up ONLY IF the bitmap has no set bit in exactly the parent's leaf-index range clamped to the MMR (a narrower or shifted range fails the invariant); Segment::root is abstract there. Segment::root (real control flow; iterator adaptors replaced by a verified cursor stand-in, the 'required leaf' closure verified verbatim): never panics or underflows on any received segment, returns Ok ONLY IF every leaf position of the segment range that is required -- no bitmap, or the bitmap has the leaf's or its sibling's index, or it is the MMR's last position -- has an entry in the segment (so omitting a leaf the bitmap marks unspent makes validation fail), and returns Ok(None) only for a prunable MMR; that the hash it returns is the Merkle root is not decided by proof. Extension::update_leaf_sets removes from both leaf sets exactly the spent leaf indices from 0 up to the bitmap's maximum (so a spent genesis output does not survive state sync). Tamper-resistance of Segment::validate is covered only by the bounded "
     "C11 no-panic unit; Segmenter/Desegmenter assembly, prunable segments with a bitmap, and 'never finalises a wrong state' are not decided.",
     VERUS_TB, "Verus contracts on extracted real functions, reusing the C07 position-arithmetic proofs", "6 C16")
 BOUNDED_ONLY = set()
